@@ -21,17 +21,17 @@ Expected(f, rec, e) ==
   ELSE IF z /\ f.auto \in {"create_sec", "update_sec"} THEN e.nowsec
   ELSE g
 
-AutoKey(f, e) == f.key /\ e.keymode = "auto" /\ ~e.preset
+AutoKey(f, rec, e) == f.key /\ e.keymode = "auto" /\ ~rec.preset
 
 FieldOK(f, rec, e) ==
   LET x == Expected(f, rec, e) IN
   \/ x = "-"
-  \/ /\ (AutoKey(f, e) \/ rec.found[f.name] = x)                    \* Find into structs
-     /\ (AutoKey(f, e) \/ rec.first[f.name] = x)                    \* First
-     /\ (AutoKey(f, e) \/ rec.map[f.name] \in {x, "-"})             \* Find into maps
-     /\ (AutoKey(f, e) \/ rec.raw[f.name] \in {x, "-"})             \* the stored row itself
-     /\ (e.mode = "maps" \/ AutoKey(f, e) \/ rec.mem[f.name] = x)   \* the in-memory record after Create (defaults back-filled)
-     /\ (AutoKey(f, e) => /\ rec.found[f.name] = rec.raw[f.name] /\ rec.first[f.name] = rec.raw[f.name]
+  \/ /\ (AutoKey(f, rec, e) \/ rec.found[f.name] = x)                    \* Find into structs
+     /\ (AutoKey(f, rec, e) \/ rec.first[f.name] = x)                    \* First
+     /\ (AutoKey(f, rec, e) \/ rec.map[f.name] \in {x, "-"})             \* Find into maps
+     /\ (AutoKey(f, rec, e) \/ rec.raw[f.name] \in {x, "-"})             \* the stored row itself
+     /\ (e.mode = "maps" \/ AutoKey(f, rec, e) \/ rec.mem[f.name] = x)   \* the in-memory record after Create (defaults back-filled)
+     /\ (AutoKey(f, rec, e) => /\ rec.found[f.name] = rec.raw[f.name] /\ rec.first[f.name] = rec.raw[f.name]
                           /\ (e.mode = "maps" \/ rec.mem[f.name] = rec.raw[f.name]))   \* the key of the row that stores it
 
 RecOK(rec, e) == /\ \A i \in DOMAIN e.model : FieldOK(e.model[i], rec, e)
@@ -69,9 +69,10 @@ MemKey(i) ==
   ELSE CASE path = "returning" -> DbKey(i)                                    \* row i of the RETURNING result
          [] path = "lastid_reversed" -> (First + NZero - 1) - (NZero - 1 - Rank(i))   \* last id, walking backwards over zero keys
          [] OTHER -> First + Rank(i)                                          \* first id, walking forwards
-AllOrNone == (\A i \in 1..N : preset[i]) \/ (\A i \in 1..N : ~preset[i])
+\* preset keys, if any, come before all zero-key records (all-or-none included)
+PrefixPreset == \E k \in 0..N : \A i \in 1..N : preset[i] <=> i <= k
 \* every in-memory record carries the key of the row that stores it (documented domain for the
-\* LastInsertId paths: all records or none carry a preset key)
-BackfillCorrect == (path = "returning" \/ AllOrNone) => \A i \in 1..N : MemKey(i) = DbKey(i)
+\* LastInsertId paths: preset keys only in front of the zero-key records)
+BackfillCorrect == (path = "returning" \/ PrefixPreset) => \A i \in 1..N : MemKey(i) = DbKey(i)
 KeysInSliceOrder == \A i, j \in ZeroIdx : i < j => MemKey(i) < MemKey(j)
 =============================================================================
